@@ -3,7 +3,7 @@ import os, re
 import vlib, e2e, gen_conv, docs
 from vlib import show
 
-THEOREMS = ["C10_exit", "C10_one_result_per_file", "C10_each_unit_converted_once", "C10_unloadable_files_change_nothing"]
+THEOREMS = ["C10_exit", "C10_one_result_per_file", "C10_each_unit_converted_once", "C10_unloadable_files_change_nothing", "C10_added_files_change_nothing", "C10_added_files_keep_results", "C10_convert_one_monotone", "C10_sort_filter", "C10_independence_example", "C10_priority_table", "C10_added_files_change_nothing_pods", "C10_pod_independence_example"]
 
 BROKEN = {
     "syntax": "[Container\nImage=x\n",
@@ -15,6 +15,30 @@ BROKEN = {
     "invalid_utf8": b"[Container]\nImage=\xff\xfe\n",
     "bad_port": "[Container]\nImage=img\nExposeHostPort=http\n",
 }
+
+
+
+def inventory(ctx):
+    """the conversion loop of main.rs::process, which the in-process driver's op "convert" re-implements: sort key, order of
+    sorting / table construction / conversion, the converter called for each type, and the priorities of the driver"""
+    import gen_tables
+    txt = " ".join(t[1] for t in gen_tables.nontest_tokens("src/main.rs"))
+    sort_ok = ("units . sort_unstable_by ( | a , b | { let a_typ = match QuadletType :: from_path ( a . unit_file . path ( ) ) { Ok ( typ ) => sorting_priority . get ( & typ ) . unwrap_or ( & usize :: MAX ) , Err ( _ ) => & usize :: MAX , } ; "
+               "let b_typ = match QuadletType :: from_path ( b . unit_file . path ( ) ) { Ok ( typ ) => sorting_priority . get ( & typ ) . unwrap_or ( & usize :: MAX ) , Err ( _ ) => & usize :: MAX , } ; "
+               "a_typ . partial_cmp ( b_typ ) . unwrap_or ( Ordering :: Less ) } ) ; let mut units_info_map = UnitsInfoMap :: from_quadlet_units ( units . clone ( ) ) ; for quadlet in units {") in txt
+    ctx.oblig("process-loop inventory: units are sorted ascending by sorting_priority of their type, then the name table is built from the sorted list, then the units are converted in that order",
+              sort_ok, "the sort / table / loop sequence of main.rs::process changed")
+    disp = re.findall(r"QuadletType :: (\w+) => (?:\{ )?(?:warn_if_ambiguous_image_name \( unit , \w+ \) ; )?convert :: (\w+) \( unit , & mut units_info_map , cfg \. is_user \)", txt)
+    want = [("Build", "from_build_unit"), ("Container", "from_container_unit"), ("Image", "from_image_unit"), ("Kube", "from_kube_unit"), ("Network", "from_network_unit"), ("Pod", "from_pod_unit"), ("Volume", "from_volume_unit")]
+    ctx.oblig("process-loop inventory: each unit type is handed to its own converter with the shared name table", sorted(disp) == want, "found %s" % disp)
+    drv = open(os.path.join(vlib.VERIF, "harness", "verif_driver.rs")).read()
+    body = drv[drv.index("fn prio("):drv.index("fn op_convert")]
+    dp = {}
+    for arms, n in re.findall(r"((?:QuadletType::\w+\s*\|?\s*)+)=>\s*(\d+)", body):
+        for t in re.findall(r"QuadletType::(\w+)", arms):
+            dp[t] = int(n)
+    src = (ctx.tables or {}).get("priority", {})
+    ctx.oblig("process-loop inventory: the priorities of the in-process driver are the ones found in main.rs today", bool(src) and dp == src, "driver %s source %s" % (dp, src))
 
 
 def canon(text):
@@ -65,6 +89,11 @@ def run(ctx):
             S["net.network"] = "[Network]\nLabel=k=v\n"
             S["data.volume"] = "[Volume]\nVolumeName=vol-data\n"
             S["web.container"] = "[Container]\nImage=img\nNetwork=net.network\nVolume=data.volume:/srv\nEnvironment=A=1 B=2\n[Install]\nWantedBy=default.target\n"
+            if rng.random() < 0.7:
+                # references between the lower priority classes: a volume backed by an image, a build using a volume and a network
+                S["base.image"] = "[Image]\nImage=quay.io/base:1\n"
+                S["imgvol.volume"] = "[Volume]\nDriver=image\nImage=base.image\n"
+                S["bld.build"] = "[Build]\nImageTag=localhost/bld\nFile=/Containerfile\nVolume=data.volume:/bv\nNetwork=net.network\n"
             if rng.random() < 0.6:
                 S["pd.pod"] = "[Pod]\n"
                 S["in.container"] = "[Container]\nImage=img\nPod=pd.pod\n"
@@ -121,6 +150,12 @@ def run(ctx):
                             bad = "no error line naming %s" % b
             if bad:
                 ctx.failures.append({"op": "e2e", "base": sorted(S), "extra": {k: (show(v) if v is not None else "<directory>") for k, v in E.items()}, "what": bad, "class": None})
+        # references across search directories: the referring file discovered before / after the file it refers to
+        import e2e_refs
+        for b in e2e_refs.failures(e2e_refs.run(box, "c10")):
+            ctx.failures.append({"op": "e2e", "base": sorted({**e2e_refs.REFERRERS, **e2e_refs.REFERENCED}), "extra": {}, "what": b, "class": None})
+        ctx.evaluations += 2
+        ctx.count("reference_orders", 2)
         # runs in which NO file survives loading, or none converts: the exit status and the error lines must still be there
         load_fail = ["syntax", "nosection", "invalid_utf8"]
         for i in range(ctx.volume(30, 300)):
